@@ -36,6 +36,8 @@ F_le = uf("le", BytesS, IntS)            # int.from_bytes(b, "little")
 F_tobe = uf("tobe", IntS, IntS, BytesS)  # x.to_bytes(n, "big")
 F_tole = uf("tole", IntS, IntS, BytesS)  # x.to_bytes(n, "little")
 F_pow = uf("ipow", IntS, IntS, IntS)     # base ** e  (e >= 0)
+F_idiv = uf("idiv", IntS, IntS, IntS)     # a // b for a non-constant divisor b > 0
+F_imod = uf("imod", IntS, IntS, IntS)     # a %  b for a non-constant divisor b > 0
 F_bitlen = uf("bitlen", IntS, IntS)      # x.bit_length()
 F_bitand = uf("bitand", IntS, IntS, IntS)
 F_bitor = uf("bitor", IntS, IntS, IntS)
